@@ -76,9 +76,13 @@ Section ProvFacts.
     Forall2 (fun k v => pget pv k d = Some v) (run_keys m) args.
   Proof.
     intros L d. subst d. unfold date_params.
-    destruct m; simpl in L;
-      repeat (destruct args as [|? args]; [simpl in L; try discriminate L|]); simpl in L; try discriminate L;
-      repeat split; repeat constructor.
+    destruct m; simpl in L.
+    - do 7 (destruct args as [|? args]; [discriminate L|]). destruct args; [|discriminate L].
+      vm_compute. repeat split; repeat constructor.
+    - do 6 (destruct args as [|? args]; [discriminate L|]). destruct args; [|discriminate L].
+      vm_compute. repeat split; repeat constructor.
+    - do 4 (destruct args as [|? args]; [discriminate L|]). destruct args; [|discriminate L].
+      vm_compute. repeat split; repeat constructor.
   Qed.
 
   Theorem prep_exactly_one rp p prov prov' :
@@ -117,19 +121,19 @@ End ProvFacts.
 
 (** ** Concrete runs (harness instance: values are interned JSON texts, 0 = a value json.dumps
     rejects, e.g. a numpy array or numpy integer) *)
-Definition ex_generic : @generic Z := mkGeneric 11 12 13 14 15.
+Definition ex_generic : @generic Z := mkGeneric 11%Z 12%Z 13%Z 14%Z 15%Z.
 
 Lemma prov_example :
-  run_date_prov None 1 ex_generic [21; 22; 23; 24; 25; 26]%Z [[("command", 99%Z)]]
+  run_date_prov None 1%Z ex_generic [21; 22; 23; 24; 25; 26]%Z [[("command", 99%Z)]]
   = Some [[("command", 99%Z)];
-          [("mutation_rate", 11); ("recombination_rate", 12); ("time_units", 13); ("progress", 14);
-           ("population_size", 15); ("eps", 21); ("outside_standardize", 22); ("ignore_oldest_root", 23);
-           ("probability_space", 24); ("num_threads", 25); ("cache_inside", 26); ("command", -2)]]%Z
-  /\ run_date_prov (Some false) 1 ex_generic [21; 22; 23; 24; 25; 26]%Z [[("command", 99%Z)]]
+          [("mutation_rate", 11%Z); ("recombination_rate", 12%Z); ("time_units", 13%Z); ("progress", 14%Z);
+           ("population_size", 15%Z); ("eps", 21%Z); ("outside_standardize", 22%Z); ("ignore_oldest_root", 23%Z);
+           ("probability_space", 24%Z); ("num_threads", 25%Z); ("cache_inside", 26%Z); ("command", (-2)%Z)]]
+  /\ run_date_prov (Some false) 1%Z ex_generic [21; 22; 23; 24; 25; 26]%Z [[("command", 99%Z)]]
      = Some [[("command", 99%Z)]].
 Proof. split; reflexivity. Qed.
 
 (** K4: recording on, one unserialisable value (population_size an ndarray): the call raises *)
 Lemma prov_unserialisable_example :
-  run_date_prov (Some true) 1 (mkGeneric 11 12 13 14 0)%Z [21; 22; 23; 24; 25; 26]%Z [] = None.
+  run_date_prov (Some true) 1%Z (mkGeneric 11%Z 12%Z 13%Z 14%Z 0%Z) [21; 22; 23; 24; 25; 26]%Z [] = None.
 Proof. reflexivity. Qed.
